@@ -6,6 +6,9 @@ import os
 VERIF = os.path.dirname(os.path.dirname(os.path.abspath(__file__)))
 
 CHECKS = {
+    "C03": ("exact measurement of the coupling kernel as a function of the scripted coupling uniform after real next_level() calls; conservation / locality checker against independent cell masses of both grids; recorded previous-level drift and diffusion; replay of a logged coupled simulation through the measured kernel",
+            "Held-on-observed: rate conservation for every coarse state, locality of every increment, coarse drift/diffusion of level l-1, shared Brownian increments, coarse path = image of the fine path; 1-d (all methods, 3 simulation modes, levels 1..3) and 2-d/3-d copulas.",
+            "Cell masses from quadrature / corner sums; chains with intensity >= 1e-9; finite-variation copulas.", "3/C03"),
     "C04": ("reference-oracle monitor on the initialised chain: process_drift + recorded/measured rates vs quadrature mean of the truncated process in the declared representation; diffusion and variance-gap monitors",
             "Held-on-observed: all representations (native, ZERO, CENTER, ONEONE, TILDE) x families x grids x levels x methods; copula margins with a-priori slack.",
             "Truncated process = drift fixed in the declared representation, nu restricted to the grid bounds; finite-variation copulas only.", "3/C04"),
